@@ -1,6 +1,7 @@
 package harness
 
 import (
+	transfertypes "github.com/cosmos/ibc-go/v10/modules/apps/transfer/types"
 	"strconv"
 	"fmt"
 	"time"
@@ -281,6 +282,16 @@ func (w *World) buildTx(c *Chain, a map[string]any) (*TxSpec, error) {
 			msg.Metadata = &providertypes.ConsumerMetadata{Name: "n2", Description: "d2", Metadata: "m2"}
 		}
 		tx.Msgs = []sdk.Msg{msg}
+	case "Transfer":
+		// an ordinary ICS-20 transfer of a provider-native denom to consumer `c` over its transfer channel
+		tx.Signer = w.acct("u1")
+		lk := w.Links[gets(a, "c")]
+		if lk == nil || lk.PXfer == "" {
+			return nil, fmt.Errorf("no transfer channel")
+		}
+		coin := sdk.NewCoin(gets(a, "denom"), sdkmath.NewInt(geti(a, "amt")))
+		tx.Msgs = []sdk.Msg{transfertypes.NewMsgTransfer("transfer", lk.PXfer, coin, tx.Signer.Addr().String(), tx.Signer.Addr().String(),
+			clienttypes.Height{}, uint64(c.GetContext().BlockTime().Add(2*time.Hour).UnixNano()), "")}
 	case "Fees":
 		// any transaction pays its fee into the fee collector: that is how fees arise on a consumer
 		tx.Signer = w.acct("u1")
